@@ -7,6 +7,7 @@ import Hpfeeds.Lemmas.BlkClient
 import Hpfeeds.Lemmas.AioTrace
 import Hpfeeds.Lemmas.AioPrompt
 import Hpfeeds.Lemmas.BlkPrompt
+import Hpfeeds.Lemmas.BlkClientPrompt
 import Hpfeeds.Lemmas.BlkSessionTrace
 import Hpfeeds.Lemmas.BlkClientTrace
 namespace Hpfeeds.C12
@@ -164,6 +165,35 @@ def exErr : Bytes := [0,0,0,7,0,110,111]
 example : (run exCfg [.new, .connOk, .data (exInfo ++ exPub 1), .sendOk, .run, .data ((exPub 2).take 4),
     .data ((exPub 2).drop 4 ++ exErr)]).1.delivered =
     [.msg ([97],[99],[1]), .msg ([97],[99],[2]), .err [110,111]] := by decide +kernel
+/-- the two situations of `back_at_recv_drained`: right after run() was called a PUBLISH that came with OP_INFO is
+    still parked (loop top); after the next read — here a timeout — run() is back in recv() with nothing parked -/
+example : (fun s : State => (s.pc, s.ubuf.length, s.delivered.length))
+    (run exCfg [.new, .connOk, .data (exInfo ++ exPub 1), .sendOk, .run]).1 = (.runRecv, 10, 0) := by decide +kernel
+example : (fun s : State => (s.pc, s.ubuf.length, s.delivered.length))
+    (run exCfg [.new, .connOk, .data (exInfo ++ exPub 1), .sendOk, .run, .timeout]).1 = (.runRecv, 0, 1) := by decide +kernel
+
+/-- **Nothing is withheld** (`Client.run`).  After ANY event sequence `es` and ANY further event `e` that leaves the
+    client blocked in run()'s recv(): the unpacker holds no complete frame (every complete frame received has had
+    its callback) — unless run() got there from the TOP of its outer loop (it was just called, or has just
+    (re)connected and sent its subscriptions: frames that arrived in the same recv() as OP_INFO are parked until the
+    next read completes, the model reproduces that) or was in recv() already and nothing was fed.  This covers the
+    return from a callback's publish(), also when that publish had to reconnect and resubscribe. -/
+theorem back_at_recv_drained (cfg : Cfg) (es : List Ev) (e : Ev)
+    (h : (step cfg (run cfg es).1 e).1.pc = .runRecv) :
+    header (step cfg (run cfg es).1 e).1.ubuf = .wait ∨ LoopTop (run cfg es).1 ∨
+      ((run cfg es).1.pc = .runRecv ∧ (step cfg (run cfg es).1 e).1.ubuf = (run cfg es).1.ubuf) :=
+  recv_entry cfg _ e h
+
+/-- in particular: a read that brings data, or times out, and leaves run() in recv() has drained the unpacker -/
+theorem read_drains (cfg : Cfg) (s : State) (e : Ev) (hs : s.pc = .runRecv) (he : (∃ b, b ≠ [] ∧ e = .data b) ∨ e = .timeout)
+    (h : (step cfg s e).1.pc = .runRecv) : header (step cfg s e).1.ubuf = .wait := by
+  rcases he with ⟨b, hb, rfl⟩ | rfl
+  · unfold step at h ⊢
+    simp only [hs, hb, if_false] at h ⊢
+    exact afterFrames_recv_drained cfg _ h
+  · unfold step at h ⊢
+    simp only [hs] at h ⊢
+    exact afterFrames_recv_drained cfg _ h
 
 end Client
 end Hpfeeds.C12
